@@ -68,8 +68,17 @@ package migration
 //@   ensures max: forall i Int :: {versions[i]} 0 <= i && i < len(versions) ==> versions[i].Number <= r
 //@   ensures attained: len(versions) > 0 ==> r == versions[len(versions)-1].Number
 
+// number of table entries (in the window [off, off+n) of a row) whose Number is above cur
+//@ spec func cntGt(row [Int]Version, off Int, cur Int, n Int) Int
+//@ axiom cntGt_0: forall row [Int]Version, off Int, cur Int :: cntGt(row, off, cur, 0) == 0
+//@ axiom cntGt_s: forall row [Int]Version, off Int, cur Int, n Int :: {cntGt(row, off, cur, n)}
+//@     n > 0 ==> cntGt(row, off, cur, n) == cntGt(row, off, cur, n - 1) + (select(row, off + n - 1).Number > cur ? 1 : 0)
+//@ macro CNTGT(vs, cur, n) = cntGt(select(@M(Version), vs.base), vs.off, cur, n)
+
 //@ func VersionsToApply(currentVersion, versions) (r)
 //@   property C19
+//@   invariant 1 count: len(upgradeVersions) == old(CNTGT(versions, currentVersion, rangeindex + 1))
+//@   ensures none_dropped: len(r) == old(CNTGT(versions, currentVersion, len(versions)))
 //@   invariant 1 idx: 0 <= rangeindex + 1 && rangeindex + 1 <= len(versions) && len(upgradeVersions) <= rangeindex + 1
 //@   invariant 1 sep: upgradeVersions.base == 0 || fresh(upgradeVersions)
 //@   invariant 1 newer: forall k Int :: {upgradeVersions[k]} 0 <= k && k < len(upgradeVersions) ==> upgradeVersions[k].Number > currentVersion
